@@ -364,10 +364,16 @@ class QuerySim:
         if q is None:
             return None
         try:
-            q['real'].to_sql()
+            sql, params = q['real'].to_sql()
         except Exception as e:  # noqa: BLE001
             code = 'emptyfilter.raised' if (q['fid'] is not None and not self._filt(q)) else 'reexec.raised'
             self.fail(code, f'to_sql raised {type(e).__name__}: {e}', **self._features(q))
+        built = (sql, [repr(x) for x in params])
+        if q.get('first_sql') is None:
+            q['first_sql'] = built
+        elif q['first_sql'] != built:
+            self.fail('tosql.differs', f'building the SQL again gave a different statement/parameters: '
+                      f'{len(q["first_sql"][1])} parameters first, {len(built[1])} now', **self._features(q))
         q['tosql'] += 1
         self.bump('to_sql_extra')
         return 'ok'
